@@ -37,7 +37,8 @@ Modelling decisions (all stated in design_notes/C14.md):
 * `n - a - k + 2` is evaluated by Python on signed integers; `a ≤ n - k + 1` makes it ≥ 1.  The model
   writes it as the natural number `n + 2 - a - k` (same value, no truncation).
 * Inside one `k` iteration the code reads `pr_a_ln[a]` for the dot product and then updates the same
-  entry; the model computes the dot product over the old list, then maps the update (same data flow).
+  entry; `innerLoop`/`margBody` do exactly that; the proofs use the separated form `margBodyRef` (dot
+  product over the old list, then the update), shown equal in `Proofs/Coalescent.margBody_eq_ref`.
 * The two moment columns share `pr_a_ln`; the model runs the recursion once per column.
 * `log`/`exp` of `lognorm_approx` are parameters.
 -/
@@ -78,8 +79,29 @@ structure MState (α : Type) where
   pr : List α
   out : List (Nat × α)
 
-/-- Body of `for k in range(n - 1, 1, -1)`. -/
+/-- The inner loop `for a in range(2, n - k + 2)`, statement by statement: `out[k] += exp(pr_a_ln[a]) *
+val[a]`, then (if `k > 2`) `pr_a_ln[a] += const - log(n - a - k + 2)`.  Returns the updated list and the
+accumulated `out[k]`. -/
+def innerLoop (n k : Nat) (c : α) (upd : Bool) (val : Nat → α) : Nat → List α → α → List α × α
+  | _, [], acc => ([], acc)
+  | a, p :: ps, acc =>
+    let acc' := acc + p * val a
+    let p' := if upd then p * c / ((n + 2 - a - k : Nat) : α) else p
+    let r := innerLoop n k c upd val (a + 1) ps acc'
+    (p' :: r.1, r.2)
+
+/-- Body of `for k in range(n - 1, 1, -1)`, as the code runs it. -/
 def margBody (n : Nat) (val : Nat → α) (s : MState α) (k : Nat) : MState α :=
+  let c : α := stepConst n k
+  let r := innerLoop n k c (decide (2 < k)) val 2 s.pr ((0 : Nat) : α)
+  { out := (k, r.2) :: s.out
+    pr := if 2 < k then
+        r.1 ++ [lastD r.1 ((1 : Nat) : α) * ((n - k + 2 : Nat) : α) / ((k + 1 : Nat) : α) / c]
+      else r.1 }
+
+/-- The same body with the read and the write of the inner loop separated (`dotFrom`, then `margStep`);
+equal to `margBody` in exact arithmetic (`Proofs/Coalescent.margBody_eq_ref`), used by the proofs. -/
+def margBodyRef (n : Nat) (val : Nat → α) (s : MState α) (k : Nat) : MState α :=
   { out := (k, dotFrom val 2 s.pr) :: s.out
     pr := if 2 < k then margStep n k s.pr else s.pr }
 
